@@ -178,9 +178,9 @@ Theorem params_at_submission : forall P kf now s proposer ms amt ex valid bd s',
             p_submit p = now /\ p_dep_end p = now + max_deposit_period P /\ p_expedited p = ex.
 Proof.
   intros until s'. intros W H. assert (H0 := H). unfold submit in H0.
-  destruct (negb (check_msgs ms)); [discriminate|]. destruct (amt <? 0); [discriminate|].
+  destruct (negb (check_msgs ms)); [discriminate|]. destruct ((amt <? 0) || (proposer <? 0)); [discriminate|].
   destruct (initial_ok P ex amt) eqn:I; cbn [negb] in H0; [|discriminate]. split; [reflexivity|]. clear H0.
-  apply submit_ok_inv in H as (_ & _ & H). apply add_deposit_ok_inv in H as (p & Hf & Ho & _ & ->).
+  apply submit_ok_inv in H as (_ & _ & _ & H). apply add_deposit_ok_inv in H as (p & Hf & Ho & _ & ->).
   cbn [props] in *. rewrite find_prop_app, (find_prop_none_fresh _ _ (wf_ids _ W)) in Hf.
   cbn in Hf. rewrite Z.eqb_refl in Hf. inversion Hf; subst p.
   eexists. split.
@@ -240,7 +240,7 @@ Theorem params_at_drop : forall P s id p s' ev,
 Proof.
   unfold process_inactive. intros until ev. intros H Hf Hs. rewrite Hf, Hs in H.
   destruct (pay_out s p (burn_prevote P)) as [[s1 e1]|] eqn:Hp; [|discriminate].
-  inversion H; subst. now apply pay_out_some in Hp as (_ & _ & _ & _ & _ & _ & _ & ->).
+  inversion H; subst. now apply pay_out_some in Hp as (_ & _ & _ & _ & _ & _ & ->).
 Qed.
 
 (* ================================================================== conservation of value *)
@@ -267,20 +267,28 @@ Proof.
   - destruct H as [->|H]; [rewrite Z.eqb_refl in E; discriminate|]. rewrite IH by assumption. lia.
 Qed.
 
-Definition deps_in (A : list Z) (l : list (Z * Z)) : Prop := Forall (fun da => In (fst da) A) l.
+(* every depositor is in A — or is the module account itself, whose own records move nothing *)
+Definition deps_in (A : list Z) (l : list (Z * Z)) : Prop :=
+  Forall (fun da => fst da = gov_acct \/ In (fst da) A) l.
 
 Lemma sumb_refund_all : forall A l b, NoDup A -> deps_in A l ->
-  sumb A (refund_all b l) = sumb A b + sum_deps l.
+  sumb A (refund_all b l) = sumb A b + (sum_deps l - gov_part l).
 Proof.
   induction l as [|[d a] r IH]; cbn; intros b N F; [lia|].
-  inversion F; subst. rewrite IH by assumption. rewrite sumb_add_in by assumption. lia.
+  inversion F; subst. destruct (d =? gov_acct) eqn:G.
+  - rewrite IH by assumption. lia.
+  - rewrite IH by assumption. cbn in H1. destruct H1 as [H1|H1]; [apply Z.eqb_neq in G; contradiction|].
+    rewrite sumb_add_in by assumption. lia.
 Qed.
 
 Lemma sumb_refund_rest : forall A rate l b, NoDup A -> deps_in A l ->
-  sumb A (refund_rest rate b l) = sumb A b + sum_deps l - sum_charges rate l.
+  sumb A (refund_rest rate b l) = sumb A b + (sum_deps (rest_of rate l) - gov_part (rest_of rate l)).
 Proof.
-  induction l as [|[d a] r IH]; cbn; intros b N F; [lia|].
-  inversion F; subst. rewrite IH by assumption. rewrite sumb_add_in by assumption. lia.
+  unfold rest_of. induction l as [|[d a] r IH]; cbn [refund_rest map sum_deps gov_part fst snd]; intros b N F; [lia|].
+  inversion F; subst. destruct (d =? gov_acct) eqn:G.
+  - rewrite IH by assumption. lia.
+  - rewrite IH by assumption. cbn in H1. destruct H1 as [H1|H1]; [apply Z.eqb_neq in G; contradiction|].
+    rewrite sumb_add_in by assumption. lia.
 Qed.
 
 Definition msg_in (A : list Z) (m : msg) : Prop :=
@@ -305,7 +313,7 @@ Definition params_in (A : list Z) (P : params) : Prop :=
 Definition inflow (o : op) (r : result) : Z :=
   match o, r with OBank _ d, ROk => d | _, _ => 0 end.
 
-Lemma deps_in_add : forall A d a l, In d A -> deps_in A l -> deps_in A (add_dep d a l).
+Lemma deps_in_add : forall A d a l, d = gov_acct \/ In d A -> deps_in A l -> deps_in A (add_dep d a l).
 Proof.
   induction l as [|[d' a'] r IH]; cbn; intros Hd F.
   - constructor; [assumption|constructor].
@@ -325,25 +333,34 @@ Proof.
   split; [rewrite D|rewrite M]; assumption.
 Qed.
 
-Lemma exec_msgs_value : forall A ms s s', NoDup A -> Forall (msg_in A) ms ->
-  exec_msgs s ms = Some s' -> value A s' = value A s.
+Lemma exec_msgs_value : forall A e ms s s', NoDup A -> Forall (msg_in A) ms -> closed_in A s ->
+  exec_msgs e s ms = Some s' -> value A s' = value A s /\ closed_in A s'.
 Proof.
-  induction ms as [|m r IH]; cbn; intros s s' N F H.
-  - inversion H; reflexivity.
-  - inversion F; subst. destruct (exec_one s m) as [s1|] eqn:E; [|discriminate].
-    rewrite (IH _ _ N H3 H). unfold exec_one, msg_in in *. destruct (m_act m) as [tag| |to amt].
-    + inversion E; subst. reflexivity.
-    + discriminate.
-    + destruct ((0 <? amt) && (amt <=? gov_bal s)); [|discriminate]. inversion E; subst.
-      unfold value; cbn. rewrite sumb_add_in by assumption. lia.
+  intros A e. induction ms as [|m r IH]; cbn; intros s s' N F C H.
+  - inversion H; subst; auto.
+  - inversion F; subst. destruct (exec_one e s m) as [s1|] eqn:E; [|discriminate].
+    assert (V1 : value A s1 = value A s /\ closed_in A s1).
+    { unfold exec_one, msg_in in *. destruct (m_act m) as [tag| |to amt|pid amt].
+      - inversion E; subst. split; [reflexivity|exact C].
+      - discriminate.
+      - destruct ((0 <? amt) && (amt <=? gov_bal s)); [|discriminate]. inversion E; subst.
+        split; [|exact C]. unfold value; cbn. rewrite sumb_add_in by assumption. lia.
+      - apply gov_deposit_inv in E as [->|(p & Hf & _ & _ & _ & _ & ->)]; [auto|].
+        split; [reflexivity|]. unfold closed_in in *. cbn. apply Forall_upd; [assumption|]. intros q Hq.
+        rewrite Forall_forall in C. destruct (C q (find_prop_In _ _ _ Hq)).
+        split; cbn; [apply deps_in_add; auto|assumption]. }
+    destruct V1 as [V1 C1]. destruct (IH _ _ N H3 C1 H) as [V2 C2]. split; [lia|assumption].
 Qed.
 
 Lemma pay_out_value : forall A s p burn s1 ev, NoDup A -> deps_in A (p_deps p) ->
   pay_out s p burn = Some (s1, ev) -> value A s1 = value A s.
 Proof.
-  unfold pay_out. intros until ev. intros N D. destruct (gov_bal s <? sum_deps (p_deps p)); [discriminate|].
-  destruct burn; intro H; inversion H; subst; unfold value; cbn; [lia|].
-  rewrite sumb_refund_all by assumption. lia.
+  unfold pay_out. intros until ev. intros N D. destruct burn.
+  - destruct (gov_bal s <? sum_deps (p_deps p)); [discriminate|].
+    intro H; inversion H; subst; unfold value; cbn. lia.
+  - destruct ((gov_bal s <? before_part (p_deps p) + gov_part (p_deps p)) || (gov_bal s <? sum_deps (p_deps p) - gov_part (p_deps p)));
+      [discriminate|].
+    intro H; inversion H; subst; unfold value; cbn. rewrite sumb_refund_all by assumption. lia.
 Qed.
 
 Lemma value_set_props : forall A s ps, value A (set_props s ps) = value A s.
@@ -391,11 +408,12 @@ Proof.
   pose proof (pay_out_value A _ _ _ _ _ N (proj1 D) Hp) as V1.
   apply pay_out_some in Hp as (Hpr & _).
   destruct (passes v).
-  - destruct (exec_msgs s1 (p_msgs p)) as [s2|] eqn:He.
-    + pose proof (exec_msgs_value A _ _ _ N (proj2 D) He) as V2.
-      apply exec_msgs_frame in He as (A2 & _).
-      intro H; inversion H; subst. rewrite value_set_props. split; [lia|].
-      apply K; [intros; split; reflexivity|congruence].
+  - match goal with |- context [exec_msgs ?e ?sp ?ms] => destruct (exec_msgs e sp ms) as [s2|] eqn:He end.
+    + intro H; inversion H; subst.
+      assert (CP : closed_in A (set_props s1 (upd_prop id (fun q => tallied q SPassed v) (props s1))))
+        by (apply K; [intros; split; reflexivity|assumption]).
+      destruct (exec_msgs_value A _ _ _ _ N (proj2 D) CP He) as [V2 C2].
+      rewrite value_set_props in V2. split; [lia|assumption].
     + intro H; inversion H; subst. rewrite value_set_props. split; [assumption|].
       apply K; [intros; split; reflexivity|assumption].
   - intro H; inversion H; subst. rewrite value_set_props. split; [assumption|].
@@ -428,15 +446,15 @@ Proof.
     intro H; injection H as <- <- <-. cbn [inflow]. destruct r0;
       try (apply submit_err in E; [subst; split; [lia|assumption]|discriminate]).
     destruct Ho as [Hpr Hms].
-    apply submit_ok_inv in E as (_ & _ & E). apply add_deposit_ok_inv in E as (p & Hf & _ & _ & ->).
+    apply submit_ok_inv in E as (_ & _ & _ & E). apply add_deposit_ok_inv in E as (p & Hf & _ & _ & ->).
     split.
     + unfold value; cbn. rewrite sumb_add_in by assumption. lia.
     + unfold closed_in in *. cbn. apply Forall_upd.
       * apply Forall_app; split; [assumption|]. constructor; [|constructor]. split; [constructor|exact Hms].
       * intros q Hq. cbn in Hq. apply find_prop_In in Hq. apply in_app_or in Hq as [Hq|[<-|[]]].
-        -- rewrite Forall_forall in C. destruct (C q Hq). split; cbn; [now apply deps_in_add|assumption].
-        -- split; cbn; [constructor; [assumption|constructor]|exact Hms].
-  - destruct ((amt <? 0) || ((amt =? 0) && negb bad_denom)); [intro H; injection H as <- <- <-; split; [cbn; lia|assumption]|].
+        -- rewrite Forall_forall in C. destruct (C q Hq). split; cbn; [apply deps_in_add; auto|assumption].
+        -- split; cbn; [constructor; [cbn; auto|constructor]|exact Hms].
+  - destruct (deposit_msg_invalid amt bad_denom depositor); [intro H; injection H as <- <- <-; split; [cbn; lia|assumption]|].
     destruct (add_deposit P kf now s pid depositor amt bad_denom) as [r0 s0] eqn:E.
     intro H; injection H as <- <- <-. cbn [inflow]. destruct r0;
       try (apply add_deposit_err in E; [subst; split; [lia|assumption]|discriminate]).
@@ -444,7 +462,7 @@ Proof.
     + unfold value; cbn. rewrite sumb_add_in by assumption. lia.
     + unfold closed_in in *. cbn. apply Forall_upd; [assumption|]. intros q Hq.
       rewrite Forall_forall in C. destruct (C q (find_prop_In _ _ _ Hq)).
-      split; cbn; [now apply deps_in_add|assumption].
+      split; cbn; [apply deps_in_add; auto|assumption].
   - destruct (vote s pid voter opts weighted) as [r0 s0] eqn:E.
     intro H; injection H as <- <- <-. cbn [inflow].
     apply vote_props in E as [->|(p & _ & _ & ->)]; [split; [lia|assumption]|].
@@ -460,7 +478,8 @@ Proof.
       destruct (negb (p_proposer p =? proposer)); [inversion H0; subst; lia|].
       destruct (negb (is_open (p_status p))); [inversion H0; subst; lia|].
       destruct (match p_status p with SVoting => p_vend p <? now | _ => false end); [inversion H0; subst; lia|].
-      destruct (gov_bal s <? sum_deps (p_deps p)); [inversion H0; subst; lia|].
+      destruct ((cancel_ratio P <? 0) || (prec <? cancel_ratio P)); [inversion H0; subst; lia|].
+      match type of H0 with context [if ?c then (RErr EFunds, s, []) else _] => destruct c end; [inversion H0; subst; lia|].
       inversion H0; subst. unfold value; cbn. unfold params_in in HP.
       destruct (cancel_dest P) as [| |a]; cbn;
         rewrite ?sumb_add_in by assumption; rewrite sumb_refund_rest by (auto; apply D); lia.
@@ -480,7 +499,7 @@ Proof.
   - destruct (negb authorized); [intro H; injection H as <- <- <-; split; [cbn; lia|assumption]|].
     destruct (negb (cparams_valid cp)); intro H; injection H as <- <- <-; (split; [cbn; unfold value; cbn; lia|assumption]).
   - destruct (negb authorized); intro H; injection H as <- <- <-; (split; [cbn; unfold value; cbn; lia|assumption]).
-  - destruct (bal s acct + delta <? 0); intro H; injection H as <- <- <-; [split; [cbn; lia|assumption]|].
+  - destruct ((bal s acct + delta <? 0) || (acct <? 0)); intro H; injection H as <- <- <-; [split; [cbn; lia|assumption]|].
     cbn in Ho. split; [|assumption]. unfold value; cbn. rewrite sumb_add_in by assumption. lia.
   - destruct (corrupt s pid) as [r0 s0] eqn:E. intro H; injection H as <- <- <-. cbn [inflow].
     apply corrupt_inv in E as [->|(p & st & _ & _ & ->)]; [split; [lia|assumption]|].
